@@ -110,7 +110,7 @@ pub fn run(ctx: &Ctx) -> Report {
     let tz_days: Vec<RuleDay> = tables.days.iter().map(|d| d.to_tz().unwrap()).collect();
     let pre = Pre { tz_days, tables };
     let n = pre.tables.days.len();
-    let ds: Vec<i64> = if ctx.quick() {
+    let ds: Vec<i64> = if ctx.quick() && ctx.scale < 1.0 {
         let mut v = vec![];
         for k in [-9i64, -1, 0, 1, 9] {
             for e in [-1i64, 0, 1] {
@@ -196,7 +196,7 @@ pub fn run(ctx: &Ctx) -> Report {
         }
         l.op_n("AlternateTime::new", per);
     });
-    if !ctx.quick() {
+    if ctx.scale >= 1.0 {
         rep.exhaustive = true;
         rep.notes.push("exhaustive for the quotient named in the statement: all ordered day-notation pairs x all breakpoints of d with |d| <= 16d3h; 'all years' decided on a full 400-year cycle".into());
     }
